@@ -389,26 +389,25 @@ func (parameter *Parameter) Validate(ctx context.Context, opts ...ValidationOpti
 			return fmt.Errorf("parameter %q example and examples are mutually exclusive", parameter.Name)
 		}
 
-		if vo := getValidationOptions(ctx); vo.examplesValidationDisabled {
-			return nil
-		}
-		if example := parameter.Example; example != nil {
-			if err := validateExampleValue(ctx, example, schema.Value); err != nil {
-				return fmt.Errorf("invalid example: %w", err)
-			}
-		} else if examples := parameter.Examples; examples != nil {
-			names := make([]string, 0, len(examples))
-			for name := range examples {
-				names = append(names, name)
-			}
-			sort.Strings(names)
-			for _, k := range names {
-				v := examples[k]
-				if err := v.Validate(ctx); err != nil {
-					return fmt.Errorf("%s: %w", k, err)
+		if vo := getValidationOptions(ctx); !vo.examplesValidationDisabled {
+			if example := parameter.Example; example != nil {
+				if err := validateExampleValue(ctx, example, schema.Value); err != nil {
+					return fmt.Errorf("invalid example: %w", err)
 				}
-				if err := validateExampleValue(ctx, v.Value.Value, schema.Value); err != nil {
-					return fmt.Errorf("%s: %w", k, err)
+			} else if examples := parameter.Examples; examples != nil {
+				names := make([]string, 0, len(examples))
+				for name := range examples {
+					names = append(names, name)
+				}
+				sort.Strings(names)
+				for _, k := range names {
+					v := examples[k]
+					if err := v.Validate(ctx); err != nil {
+						return fmt.Errorf("%s: %w", k, err)
+					}
+					if err := validateExampleValue(ctx, v.Value.Value, schema.Value); err != nil {
+						return fmt.Errorf("%s: %w", k, err)
+					}
 				}
 			}
 		}
